@@ -323,8 +323,20 @@ def check_delivery(col: Collector, key: str, con: str, rel: str, cmds: List[Cmd]
         for k, v in c.node.assignments:
             assigns.setdefault(k, []).append((v, c))
     after = [c for c in run_steps if c.order > job.order]
+    def reaches_destination(text: str, depth: int = 0) -> bool:
+        """the text names $destination, directly or through a variable that was assigned from it ($converted = $destination)"""
+        if "$destination" in text:
+            return True
+        if depth >= 2:
+            return False
+        for var_ in set(re.findall(r"\$\{?([A-Za-z_][A-Za-z0-9_]*)", text)):
+            if var_ != "destination" and any(reaches_destination(v_, depth + 1) for v_, _ in assigns.get(var_, [])):
+                return True
+        return False
+
     mentions = lambda c: "$destination" in c.node.text() or (
-        c.node.name == "eval" and any("$destination" in v for v, cc in assigns.get(c.node.args[0].lstrip("$"), []) if cc.guards == c.guards))
+        c.node.name == "eval" and any(reaches_destination(v) for v, cc in assigns.get(c.node.args[0].lstrip("$"), [])
+                                      if cc.guards == c.guards or cc.guards == c.guards[:len(cc.guards)]))
     deliver = [c for c in after if mentions(c)]
     col.add("C16.R6", con, "delivery-after-the-job", bool(deliver) and not [c for c in run_steps if c.order < job.order and mentions(c)],
             "the command that writes to $destination must come after the job step, never before", rel)
@@ -342,7 +354,7 @@ def check_delivery(col: Collector, key: str, con: str, rel: str, cmds: List[Cmd]
     # every command line that was prepared for the destination is also run, under the same conditions it was prepared under
     for var, lst in assigns.items():
         for v, c in lst:
-            if "$destination" in v and phase_of(c) == "run":
+            if "$destination" in v and phase_of(c) == "run" and re.search(r"\s", v.strip()):       # a prepared command line, not a path
                 ran = [e for e in run_steps if e.node.name == "eval" and e.node.args and e.node.args[0].lstrip("$") == var
                        and e.guards == c.guards and e.order > c.order]
                 col.add("C16.R6", con, f"prepared-delivery-is-run:{var}@{c.node.line}", len(ran) == 1,
@@ -371,7 +383,7 @@ def check_delivery(col: Collector, key: str, con: str, rel: str, cmds: List[Cmd]
         ok = len(exp) == 1 and exp[0].order < job.order and exp[0].node.args == ["CMS_OUTPUT_FILE=ANALYSIS.root"] and phase_of(exp[0]) == "run"
         col.add("C16.R6", con, "job-output-name-exported-before-job", ok, "CMS_OUTPUT_FILE=ANALYSIS.root must be exported before cmsRun", rel)
         cv = [v for v, c in assigns.get("cvt", [])]
-        ok = len(cv) == 2 and all("copy_root_tree.C" in v and '\\"./$CMS_OUTPUT_FILE\\"' in v for v in cv)
+        ok = 1 <= len(cv) <= 2 and all("copy_root_tree.C" in v and '\\"./$CMS_OUTPUT_FILE\\"' in v for v in cv)
         col.add("C16.R6", con, "conversion-reads-this-run's-output", ok, "the conversion macro must read ./$CMS_OUTPUT_FILE", rel)
     else:
         # stale submission directory removed before the job
